@@ -2,6 +2,7 @@
 import os
 import time
 import dataclasses
+import typing
 from datetime import datetime, timedelta, timezone
 
 import betterproto
@@ -22,6 +23,18 @@ class TsMsg(betterproto.Message):
 @dataclasses.dataclass(eq=False, repr=False)
 class DurMsg(betterproto.Message):
     d: timedelta = betterproto.message_field(1)
+
+
+# the same values as map values (an entry message per map field is derived from the field's types at run time); both classes
+# are used by one process, one after the other
+@dataclasses.dataclass(eq=False, repr=False)
+class TsMap(betterproto.Message):
+    m: "typing.Dict[str, datetime]" = betterproto.map_field(1, betterproto.TYPE_STRING, betterproto.TYPE_MESSAGE)
+
+
+@dataclasses.dataclass(eq=False, repr=False)
+class DurMap(betterproto.Message):
+    m: "typing.Dict[str, timedelta]" = betterproto.map_field(1, betterproto.TYPE_STRING, betterproto.TYPE_MESSAGE)
 
 
 class FoldZone(__import__("datetime").tzinfo):
@@ -115,6 +128,8 @@ def time_event(args):
             back = TsMsg().parse(b).t
             ev["back_us"] = av.rawint(av.dt_us(back))
             ev["same_instant"] = (back if back.tzinfo else back.replace(tzinfo=timezone.utc)) == utc
+            mb = TsMap().parse(bytes(TsMap(m={"k": val}))).m["k"]
+            ev["same_instant"] = ev["same_instant"] and isinstance(mb, datetime) and (mb if mb.tzinfo else mb.replace(tzinfo=timezone.utc)) == utc
             js = m.to_dict()["t"] if "t" in m.to_dict() else betterproto._Timestamp.timestamp_to_json(val)
             ev["json"] = av.cps(js)
             ev["json_back_us"] = av.rawint(av.dt_us(TsMsg().from_dict({"t": js}).t))
@@ -127,6 +142,9 @@ def time_event(args):
             b = bytes(m)
             ev["b"] = list(b)
             ev["back_us"] = av.rawint(av.td_us(DurMsg().parse(b).d))
+            mb = DurMap().parse(bytes(DurMap(m={"k": val}))).m["k"]
+            if not isinstance(mb, timedelta) or mb != val:
+                raise AssertionError("as a map value the duration comes back as %r" % (mb,))
             js = m.to_dict()["d"] if "d" in m.to_dict() else betterproto._Duration.delta_to_json(val)
             ev["json"] = av.cps(js)
             ev["json_back_us"] = av.rawint(av.td_us(DurMsg().from_dict({"d": js}).d))
